@@ -50,6 +50,29 @@ theorem success_implies_identical_bytes (H : List UInt8 → List UInt8) (bsS bsR
     (init bsS bsR size (some (H data)) data) ⟨rfl, rfl⟩
   rw [hafu.2]; exact hfed
 
+/-- **accept(filePath): success ⇒ the FILE ON DISK is exactly the sent bytes, whatever the destination path held
+before** (none, shorter, longer, same length).  `initPath acceptOpenMode previous …` receives into a healthy file that
+already contains `previous`, opened the way the code opens it (`acceptOpenMode` = truncating `WriteOnly`, tied to the
+code by the `pathrun` correspondence lines); `r.disk` = the bytes written followed by what is left of the old content
+beyond them.  Any channel history, hash announced, collision hypothesis as above.  (With a non-truncating open the
+statement is false — see the `OpenMode.keep` example at the end: the stale tail of a longer old file survives while size
+and hash, computed over the received bytes only, pass.) -/
+theorem accept_path_success_implies_file_is_sent_bytes (H : List UInt8 → List UInt8) (previous : List UInt8)
+    (bsS bsR size : Nat) (data : List UInt8) (ops : List Op)
+    (hcoll : H (run H (initPath acceptOpenMode previous bsS bsR size (some (H data)) data) ops).1.r.fed = H data →
+             (run H (initPath acceptOpenMode previous bsS bsR size (some (H data)) data) ops).1.r.fed = data) :
+    (run H (initPath acceptOpenMode previous bsS bsR size (some (H data)) data) ops).1.r.success →
+    (run H (initPath acceptOpenMode previous bsS bsR size (some (H data)) data) ops).1.r.disk = data := by
+  have e : initPath acceptOpenMode previous bsS bsR size (some (H data)) data = init bsS bsR size (some (H data)) data := rfl
+  rw [e] at hcoll ⊢
+  intro hs
+  have hold := run_r_inv H (fun r => r.old = [])
+    (by intro r p h; rw [recv_old]; exact h) (fun r h => by simpa using h) ops
+    (init bsS bsR size (some (H data)) data) rfl
+  unfold Recv.disk
+  rw [hold, List.drop_nil, List.append_nil]
+  exact success_implies_identical_bytes H bsS bsR size data ops hcoll hs
+
 /-- **A write the device does not take completely ends the receiving job with `FileAccessError` at once**: for every
 job in `TransferState`, every device and block — either the device took the whole block (content, counter and hash
 advance by it, nothing else changes) or the job is now finished with `FileAccessError`, counter and hash unmoved. -/
@@ -492,6 +515,12 @@ example : (run id (initDev (.fullAfter 3) 2 4096 5 none [1, 2, 3, 4, 5]) (honest
     ∧ (run id (initDev (.fullAfter 3) 2 4096 5 none [1, 2, 3, 4, 5]) (honest 5)).1.r.acc = [1, 2, 3] := by decide
 example : (run id (initDev (.failAt 3) 2 4096 5 none [1, 2, 3, 4, 5]) (honest 5)).1.r.error = .access
     ∧ (run id (initDev (.failAt 3) 2 4096 5 none [1, 2, 3, 4, 5]) (honest 5)).1.r.acc = [1, 2] := by decide
+-- accept(filePath) over a longer old file: with the code's truncating open the file is the sent bytes; a non-truncating open
+-- (OpenMode.keep) would report success with the stale tail still on disk
+example : (run id (initPath acceptOpenMode [9, 9, 9, 9] 2 4096 2 (some [1, 2]) [1, 2]) (honest 3)).1.r.success
+    ∧ (run id (initPath acceptOpenMode [9, 9, 9, 9] 2 4096 2 (some [1, 2]) [1, 2]) (honest 3)).1.r.disk = [1, 2] := by decide
+example : (run id (initPath .keep [9, 9, 9, 9] 2 4096 2 (some [1, 2]) [1, 2]) (honest 3)).1.r.success
+    ∧ (run id (initPath .keep [9, 9, 9, 9] 2 4096 2 (some [1, 2]) [1, 2]) (honest 3)).1.r.disk = [1, 2, 9, 9] := by decide
 -- SOCKS5: faithful stream in two reads succeeds, a truncated one is corrupt
 example : (srun id (sinit 3 (some [7, 8, 9])) [.chunk [7], .chunk [8, 9], .disconnect]).success := by decide
 example : (srun id (sinit 3 (some [7, 8, 9])) [.chunk [7, 8], .disconnect]).error = .corrupt := by decide
